@@ -39,6 +39,7 @@ type c05req struct {
 	Pending bool   // it was transmitted and registered (OnCancel applies if it ends without a reply)
 	Replied bool   // completed by a reply from the peer
 	Lenient bool   // completed by a malformed reply bearing its id: OnCancel may or may not run
+	Fresh   bool   // its context ended in the current step: the watcher may still lose to a stop in this step
 }
 
 type c05state struct {
@@ -81,6 +82,11 @@ func (s *c05state) stop(cause string) {
 	for k, r := range s.Reqs {
 		if r.St == 1 {
 			r.St, r.Out = 2, "anyerror"
+			s.Reqs[k] = r
+		} else if r.St == 2 && r.Fresh && strings.HasPrefix(r.Out, "ctx:") {
+			// the context ended in this very step; its watcher goroutine may find the
+			// client already stopped and report the stop instead of the context error
+			r.Out = "or-anyerror:" + r.Out
 			s.Reqs[k] = r
 		}
 	}
@@ -150,7 +156,7 @@ func c05step(s c05state, ev string, f c05faults, tok string) []c05state {
 	case "callc": // a call whose context has already ended when it is issued
 		issue("r4")
 		if r := n.Reqs["r4"]; r.St == 1 {
-			r.St, r.Out = 2, "ctx:canceled"
+			r.St, r.Out, r.Fresh = 2, "ctx:canceled", true
 			n.Reqs["r4"] = r
 		}
 	case "mal1": // a malformed member bearing request 1's id
@@ -177,12 +183,12 @@ func c05step(s c05state, ev string, f c05faults, tok string) []c05state {
 	case "cancel1", "cancel2", "cancel3":
 		tag := "r" + ev[6:]
 		if r := n.Reqs[tag]; r.St == 1 {
-			r.St, r.Out = 2, "ctx:canceled"
+			r.St, r.Out, r.Fresh = 2, "ctx:canceled", true
 			n.Reqs[tag] = r
 		}
 	case "tmo":
 		if r := n.Reqs["r2"]; r.St == 1 {
-			r.St, r.Out = 2, "ctx:deadline"
+			r.St, r.Out, r.Fresh = 2, "ctx:deadline", true
 			n.Reqs["r2"] = r
 		}
 	case "close":
@@ -261,6 +267,13 @@ func c05apply(states []c05state, ev string, f c05faults, tok string) []c05state 
 		return cur
 	}
 	for _, s := range states {
+		s = s.clone()
+		for k, r := range s.Reqs {
+			if r.Fresh {
+				r.Fresh = false
+				s.Reqs[k] = r
+			}
+		}
 		if a, b, ok := strings.Cut(ev, "||"); ok {
 			add(seq(s, a, b))
 			add(seq(s, b, a))
@@ -368,6 +381,9 @@ func (w *c05world) learnIDs() {
 }
 
 func c05outcomeOK(want, got string) bool {
+	if rest, ok := strings.CutPrefix(want, "or-anyerror:"); ok {
+		return got == rest || c05outcomeOK("anyerror", got)
+	}
 	if want == "anyerror" {
 		return got != "nil" && !strings.HasPrefix(got, "ok:") && got != ""
 	}
